@@ -37,7 +37,8 @@ Full statement / proved / missing
 * lazily built type caches (`Model/LazyCache.lean`): `C13_lazy_caches` — for a table of publication sites that satisfies
   `publishAfterInit` (the publishing write is the last write to the object) no reader, under any interleaving, observes a
   half-built type; the table regenerated from types/*.go does NOT satisfy it (`C13_publish_order_fails`, known finding
-  C13-type-cache-published-before-init) and the model built from that table exhibits the half-built answer
+  C13-type-cache-published-before-init) — but every site outside the five recorded functions does (`C13_publish_ok`:
+  all lazily initialised fields are found by shape, so a new "assign, then complete in place" breaks the obligation) and the model built from that table exhibits the half-built answer
   (`C13_cache_half_built`), as the implementation does under the same schedule.
 * file-based loading (`Model/InstantiateOnce.lean`: the lock-table / name-mutex / double-check protocol of
   `fileBasedLoader.instantiate`, including the deletion of the mutex from the table after unlocking):
@@ -211,12 +212,12 @@ open Pcore.LoaderSeq
 
 /-- a lazily file-loaded definition is instantiated at most once, whatever the interleaving, the number of goroutines
     and the names they look up -/
-theorem C13_once (files : List (Key × V)) (progs : List (List Key)) (c : Config)
+theorem C13_once (files : List (Key × V)) (progs : List (List FOp)) (c : Config)
     (hr : Reachable (Config.init files progs) c) (k : Key) : c.reads.count k ≤ 1 :=
   (Inv_reachable (Inv_init files progs) hr).i7 k
 
 /-- … and exactly once for a name that is bound; what is bound is what the file holds -/
-theorem C13_once_bound (files : List (Key × V)) (progs : List (List Key)) (c : Config)
+theorem C13_once_bound (files : List (Key × V)) (progs : List (List FOp)) (c : Config)
     (hr : Reachable (Config.init files progs) c) (k : Key) (v : V) (hb : lk k c.es = some (some v)) :
     c.reads.count k = 1 ∧ fileOf k c.files = some v := by
   have h1 := C13_once files progs c hr k
@@ -227,12 +228,12 @@ theorem C13_once_bound (files : List (Key × V)) (progs : List (List Key)) (c : 
 def fileA : List (Key × V) := [("a", .al "A" 1)]
 /-- thread 1 looks `a` up and runs until it is parked between the placeholder and the instantiator; thread 0 then looks
     `a` up: it meets the placeholder -/
-def visibleConfig : Config := iter (Config.init fileA [["a"], ["a"]]) [1, 1, 1, 1, 1, 1, 1, 0]
+def visibleConfig : Config := iter (Config.init fileA [[.load "a"], [.load "a"]]) [1, 1, 1, 1, 1, 1, 1, 0]
 
 /-- the known finding in the model: a name that HAS a file is answered not-found while its instantiation is in progress
     (the schedule `1 1` of the finding's witness op) -/
 theorem C13_placeholder_visible :
-    Reachable (Config.init fileA [["a"], ["a"]]) visibleConfig ∧ fileOf "a" visibleConfig.files = some (.al "A" 1) ∧
+    Reachable (Config.init fileA [[.load "a"], [.load "a"]]) visibleConfig ∧ fileOf "a" visibleConfig.files = some (.al "A" 1) ∧
     (visibleConfig.th.map (·.log)) = [[.notfound], []] ∧ (visibleConfig.th.map (·.pc)) = [.idle, .instRun "a" 0] :=
   ⟨reachable_iter _ _ _ Reachable.init, by decide, by decide, by decide⟩
 
@@ -271,6 +272,16 @@ theorem C13_lazy_caches (tbl : List CacheSite) (h : publishAfterInit tbl = true)
 
 /-- the code as it is does not follow the discipline (known finding C13-type-cache-published-before-init) … -/
 theorem C13_publish_order_fails : publishAfterInit Pcore.Generated.cacheSites = false := by decide
+
+/-- every OTHER lazily initialised field found in the anchored type and value files (StructType.hashedMembers, the
+    typedName caches, Hash.index, objectType.ctor …) is only ever assigned a complete value: the obligation a change like
+    "store the empty map, then fill it in place" breaks -/
+theorem C13_publish_ok : publishOKExcept knownPublishFirst Pcore.Generated.cacheSites = true := by decide
+
+-- the shape it rejects: the field assigned, the object completed afterwards (e.g. double-checked locking around a map
+-- that is published empty)
+example : publishOKExcept knownPublishFirst
+    (Pcore.Generated.cacheSites ++ [{ fn := "StructType.HashedMembers", field := "hashedMembers", publishLast := false }]) = false := by decide
 
 /-- … and a second reader does see the half-built type: thread 0 is parked right after publishing the reduced type of a
     one-element Array when thread 1 asks for it (the schedule `0 1` of the finding's first witness op) -/
